@@ -31,6 +31,7 @@ pub fn make_parser(emu: &str, music: u8) -> Box<dyn BufferParser> {
         "rip" => {
             let dir = std::path::PathBuf::from(std::env::var("VERIF_SCRATCH").unwrap_or_else(|_| "/verif/work/scratch".to_string())).join("rip-files");
             let _ = std::fs::create_dir_all(&dir);
+            write_icon_files(&dir);
             Box::new(icy_engine::rip::Parser::new(Box::default(), dir))
         }
         "igs" => {
@@ -366,4 +367,40 @@ pub fn printable(bytes: &[u8]) -> String {
         s.push_str(&format!("...(+{} bytes)", bytes.len() - 400));
     }
     s
+}
+
+
+/// Icon files for RIP_LOAD_ICON / icon buttons / file queries (format: u16 width-1, u16 height-1, then per row four bit
+/// planes). Written once per directory, atomically (several workers share the directory).
+fn write_icon_files(dir: &std::path::Path) {
+    let icon = |w: u16, h: u16, rows: usize| -> Vec<u8> {
+        let mut v = Vec::new();
+        v.extend((w.wrapping_sub(1)).to_le_bytes());
+        v.extend((h.wrapping_sub(1)).to_le_bytes());
+        let row = (w as usize / 8 + usize::from(w & 7 != 0)) * 4;
+        for y in 0..rows {
+            v.extend((0..row).map(|i| (i * 37 + y * 11) as u8));
+        }
+        v
+    };
+    let mut huge = vec![0xFFu8; 4];
+    huge.extend([0x55u8; 64]);
+    let files: [(&str, Vec<u8>); 6] = [
+        ("GOOD.ICN", icon(20, 10, 10)),
+        ("SHORT.ICN", icon(20, 10, 0).into_iter().chain([1u8, 2, 3, 4, 5]).collect()),
+        ("HUGE.ICN", huge),
+        ("EMPTY.ICN", Vec::new()),
+        ("ONE.ICN", icon(1, 1, 1)),
+        ("WIDE.ICN", icon(2000, 3, 3)),
+    ];
+    for (name, data) in files {
+        let path = dir.join(name);
+        if std::fs::metadata(&path).map(|m| m.len() == data.len() as u64).unwrap_or(false) {
+            continue;
+        }
+        let tmp = dir.join(format!(".{name}.{}", std::process::id()));
+        if std::fs::write(&tmp, &data).is_ok() {
+            let _ = std::fs::rename(&tmp, &path);
+        }
+    }
 }
